@@ -354,7 +354,10 @@ Returns:
                            datetime.today().strftime('%Y, %m, %d')),
           file=outfile)
     print(getattr(f, 'TIME_INTERVAL', 0), file=outfile)
-    print(f.INDEPENDENT_VARIABLE, file=outfile)
+    # name, units -- like the dependent variable lines below
+    print(delim.join([f.INDEPENDENT_VARIABLE,
+                      getattr(f.variables[f.INDEPENDENT_VARIABLE], 'units',
+                              'unknown')]), file=outfile)
     print('%d' % len(depvarkeys), file=outfile)
     print(delim.join(['1' for k in depvarkeys]), file=outfile)
     print(delim.join([str(getattr(f.variables[k], 'missing_value', -999))
